@@ -864,24 +864,28 @@ parser! {
         declaration
       }).collect()
     }
-    // TODO this doesn't pass all information. I suspect the rule from the description is not right
     rule global_var_decl() -> (Vec<VarDecl>) = vs:global_var_spec() _ tok:tok(TokenType::Colon) _ initializer:(l:located_var_spec_init() { l } / f:function_block_type_name() { InitialValueAssignmentKind::FunctionBlock(FunctionBlockInitialValueAssignment{type_name: f, init: vec![] })})? {
+      let location = vs.1;
       vs.0.into_iter().map(|name| {
         let init = initializer.clone().unwrap_or(InitialValueAssignmentKind::None(SourceSpan::join(&tok.span, &tok.span)));
+        let identifier = match &location {
+          // A located global variable: the name is optional
+          Some(location) => VariableIdentifier::new_direct(name, location.clone()),
+          None => VariableIdentifier::Symbol(name.unwrap_or_else(|| Id::from(""))),
+        };
         VarDecl {
-          identifier: VariableIdentifier::Symbol(name),
+          identifier,
           var_type: VariableType::Global,
           qualifier: DeclarationQualifier::Unspecified,
-          // TODO this is clearly wrong
           initializer: init,
         }
       }).collect()
      }
-    rule global_var_spec() -> (Vec<Id>, Option<AddressAssignment>) = names:global_var_list() {
-      (names, None)
-    } / global_var_name()? location() {
-      // TODO this is clearly wrong, but it feel like the spec is wrong here
-      (vec![Id::from("")], None)
+    // The located form must be tried first because a list of names is a prefix of it
+    rule global_var_spec() -> (Vec<Option<Id>>, Option<AddressAssignment>) = name:global_var_name()? _ location:location() {
+      (vec![name], Some(location))
+    } / names:global_var_list() {
+      (names.into_iter().map(Some).collect(), None)
     }
     // TODO this is completely fabricated - it isn't correct.
     rule located_var_spec_init() -> InitialValueAssignmentKind = simple:simple_spec_init() { simple }
